@@ -139,6 +139,8 @@ pub(super) fn is_additional_pattern_useful<CX: PatternMatchingContext>(
   existing_patterns: &[AbstractPatternNode],
   pattern: AbstractPatternNode,
 ) -> bool {
+  #[cfg(samlang_verif)]
+  crate::verif_hooks_c07::record("useful", existing_patterns);
   useful_internal(
     cx,
     &PatternMatrix(existing_patterns.iter().map(|p| PatternVector(one(p.dupe()))).collect_vec()),
@@ -150,6 +152,8 @@ pub(super) fn incomplete_counterexample<CX: PatternMatchingContext>(
   cx: &CX,
   existing_patterns: &[AbstractPatternNode],
 ) -> Option<Description> {
+  #[cfg(samlang_verif)]
+  crate::verif_hooks_c07::record("counterexample", existing_patterns);
   incomplete_counterexample_internal(
     cx,
     &PatternMatrix(existing_patterns.iter().map(|p| PatternVector(one(p.dupe()))).collect_vec()),
